@@ -215,13 +215,17 @@ class Evaluator:
         self.frames.append(fr)
         self.depth += 1
         try:
-            self.exec_block(fi.body_nodes(), sub)
+            falls = self.exec_block(fi.body_nodes(), sub)
         finally:
             self.depth -= 1
             self.frames.pop()
         st.heap = sub.heap
         if top:
             self.top_state = sub
+        if falls and fr.returns:
+            # control may fall off the end of a function that also returns values: implicit None
+            fr.returns.append((sub.guard, NONE))
+            self.emit('fallthrough', sub, fi.node, func=fi)
         # combine return cases
         if not fr.returns:
             return NONE
@@ -1108,6 +1112,7 @@ class Evaluator:
             nb = term_as_num(base, True, 'unknown')
         if nb is not None and nb.length is not None:
             if isinstance(idx, Num) and idx.length is None:
+                self.emit('subscript', st, node, base=nb, index=idx)
                 i = idx.r
                 if neg_const_index(i):
                     i = nb.length + i
@@ -1125,6 +1130,8 @@ class Evaluator:
                 return term_as_num(Term('slice_of', (nb, idx), kind=nb.kind), True, nb.kind)
             if isinstance(idx, Tup):
                 return Term('index', (nb, idx), kind='ndarray')
+            if isinstance(idx, Term) and idx.head.startswith(('lib:', 'method:', 'call:')):
+                self.emit('subscript', st, node, base=nb, index=idx)
             # boolean mask / fancy index: fresh array
             return term_as_num(Term('index', (nb, idx), kind='ndarray'), True, 'ndarray')
         if isinstance(idx, Tup) and len(idx.items) == 2:
@@ -1255,7 +1262,8 @@ class Evaluator:
         if res is None:
             kind = LIB_RESULT_KIND.get(dotted, 'unknown')
             uid = fresh_serial() if dotted in IMPURE_LIBS or dotted.startswith(IMPURE_PREFIXES) else None
-            res = Term('lib:' + dotted, pos, list(kw.items()) + ([('**', star_kw)] if star_kw is not None else []),
+            npos, nkw = normalise_lib_args(dotted, pos, kw) if star_kw is None else (pos, kw)
+            res = Term('lib:' + dotted, npos, list(nkw.items()) + ([('**', star_kw)] if star_kw is not None else []),
                        kind=kind, uid=uid, node=node)
         self.lib_event(dotted, pos, kw, star_kw, st, node, res)
         return res
@@ -1297,6 +1305,49 @@ def _single_atom(r: Rat) -> int:
     return m[0][0]
 
 
+def normalise_lib_args(dotted: str, pos, kw):
+    """bind the arguments to the installed signature (E1) so that positional / keyword spelling does not matter;
+    arguments equal to the parameter's default are dropped"""
+    from . import api
+    import inspect
+    if any(isinstance(p, Term) and p.head == 'star' for p in pos):
+        return pos, kw
+    st, binding, _ = api.bind_call(dotted, len(pos), list(kw))
+    if st != 'ok' or binding is None:
+        return pos, kw
+    ok, obj, _ = api.resolve_lib(dotted)
+    try:
+        sig = inspect.signature(obj)
+    except (TypeError, ValueError):
+        return pos, kw
+    out_pos, out_kw = [], {}
+    for pname, b in binding.items():
+        par = sig.parameters[pname]
+        if par.kind == par.VAR_POSITIONAL:
+            for item in b:
+                out_pos.append(pos[item[1]])
+            continue
+        if par.kind == par.VAR_KEYWORD:
+            for k, item in b.items():
+                out_kw[k] = kw[item[1]]
+            continue
+        val = pos[b[1]] if b[0] == 'pos' else kw[b[1]]
+        d = par.default
+        if d is not par.empty:
+            try:
+                if isinstance(val, Const) and (val.v is d or (type(val.v) is type(d) and val.v == d)):
+                    continue
+                if isinstance(val, Num) and val.is_const() and isinstance(d, (int, float)) and not isinstance(d, bool) and val.const() == d:
+                    continue
+            except Exception:
+                pass
+        if par.kind == par.POSITIONAL_ONLY:
+            out_pos.append(val)
+        else:
+            out_kw[pname] = val
+    return out_pos, out_kw
+
+
 def _order(a: Num, b: Num) -> bool:
     """deterministic operand order for symmetric predicates"""
     return sym.show(a.r) > sym.show(b.r)
@@ -1318,6 +1369,7 @@ IMPURE_LIBS = {'tempfile.TemporaryDirectory', 'tempfile.mkdtemp', 'time.time', '
                'os.rename', 'os.replace', 'os.makedirs', 'pickle.dump', 'pickle.load', 'shutil.rmtree', 'warnings.warn'}
 IMPURE_PREFIXES = ('numpy.random.', 'random.', 'secrets.')
 LIB_RESULT_KIND = {
+    'numpy.asarray': 'ndarray', 'numpy.array': 'ndarray', 'numpy.asanyarray': 'ndarray', 'numpy.ascontiguousarray': 'ndarray',
     'numpy.interp': 'ndarray', 'numpy.unique': 'ndarray', 'numpy.arange': 'ndarray', 'numpy.linspace': 'ndarray',
     'numpy.zeros': 'ndarray', 'numpy.ones': 'ndarray', 'numpy.tile': 'ndarray', 'numpy.insert': 'ndarray',
     'numpy.concatenate': 'ndarray', 'numpy.pad': 'ndarray', 'numpy.column_stack': 'ndarray', 'numpy.nanmean': 'ndarray',
@@ -1603,7 +1655,10 @@ def m_sum(ev, recv, pos, kw, st, node):
 
 
 def m_copy(ev, recv, pos, kw, st, node):
-    return recv if isinstance(recv, Num) else None
+    # value semantics: a copy holds the same values (freshness is the alias analysis' business)
+    if isinstance(recv, (Num, Term, Gam)) and not pos:
+        return recv
+    return None
 
 
 def m_reduce(head):
